@@ -34,12 +34,12 @@ CLAIMED = {
     "C18": (SIM + "seeded histories with back-dated, equal and future-dated transactions, script-set account metadata, metadata-only accounts, deletes on unknown accounts and failing writes, 1-3 concurrent clients, store faults and crashes; the real UpsertAccounts (its raw CTE interpreted statement by statement), UpdateAccountsMetadata and DeleteAccountMetadata run over the SQL interpreter; final-state oracle derived from the committed logs only + invariants at every commit",
             "Seeded exploration; an account row exists iff a committed log involves the account in a transaction or writes metadata on it; first usage equals the earliest of those events; insertion date never changes and first usage never moves later.",
             TRUSTED + "SCOPE LIMIT: the account listing routes (SQL) do not run; the oracle reads the accounts table. KNOWN FINDING: a metadata write on an existing account never lowers first usage.", "15/C18"),
-    "C19": (SIM + "seeded histories on three ledgers sharing a bucket (one of them created mid-history) and one alone in another bucket, with the same account names, references, idempotency keys and transaction ids everywhere, 2-3 concurrent clients, store faults and crashes; every write statement's ledger predicate is interpreted over bucket-wide tables; invariant at every commit: every changed row belongs to the ledger the committing request addressed",
-            "Seeded exploration of the WRITE half of the statement: no write on one ledger changes a row of another; each ledger's journal and state stay explained by its own acknowledged writes (logs-match-ops, replay, conservation per ledger).",
-            TRUSTED + "SCOPE LIMIT: the read half of C19 (newScopedSelect and the alone-in-bucket shortcut, resource_*.go) is SQL read code and does not run; it is not decided.", "15/C19"),
-    "C35": (SIM + "differential simulation: two ledgers of one bucket with independently drawn feature sets (all 48 combinations reachable) receive the same sequential history (creates with explicit back-dated / future-dated timestamps, refused writes, scripts setting account and transaction metadata, reverts, metadata saves and deletes), each from its own client, the two clients interleaved by the seeded scheduler; the real storage write path runs over the SQL interpreter, so the feature gates of CommitTransaction and InsertLog execute",
-            "Seeded exploration of the WRITE side of the statement: for every drawn pair of feature sets the transactions, logs, balances and current metadata of the two ledgers must be identical (database-assigned dates and hashes left out); hashes exist only on HASH_LOGS=SYNC ledgers and chain; moves exist only when MOVES_HISTORY=ON.",
-            TRUSTED + "SCOPE LIMIT: the second sentence of C35 (a read that needs a disabled feature is rejected with a missing-feature error) is about the read/resource SQL code, which does not run: not decided. Per-feature triggers (metadata history, effective volumes) are absent or re-implemented, so only what the Go code gates on features is exercised.", "15/C35"),
+    "C19": (SIM + "seeded histories on three ledgers sharing a bucket (one of them created mid-history) and one alone in another bucket, with the same account names, references, idempotency keys and transaction ids everywhere, 2-3 concurrent clients, store faults and crashes; every write statement's ledger predicate is interpreted over bucket-wide tables; invariant at every commit: every changed row belongs to the ledger the committing request addressed. Read half: (a) the simple reads (export, log / transaction listings and look-ups) run through the real resource repository and their answers are checked item for item while ledgers join the bucket; (b) replication pipelines keep the store the real storage driver opened for them while a sibling ledger joins the bucket and is written to - what they hand to the exporter must be their own ledger's logs; (c) every statement the real storage layer sends for a read of any kind (point in time, expansions, filters, volumes, aggregated balances) is audited by the simulated database for its ledger predicates while the bucket is shared",
+            "Seeded exploration. Write half: no write on one ledger changes a row of another; each ledger's journal and state stay explained by its own acknowledged writes. Read half: answers of the simple reads and of long-lived pipeline stores contain only the ledger's own rows; every read statement carries a ledger predicate per bucket table while the ledger shares its bucket.",
+            TRUSTED + "SCOPE LIMIT: for the reads whose SQL the interpreter cannot execute (window functions, lateral joins, history tables) what is decided is that the statement is scoped to the ledger, lexically (one `ledger = '<name>'` predicate per reference to a table of the bucket), not what PostgreSQL returns for it. KNOWN FINDING: a read in flight while a second ledger joins a bucket whose first ledger was alone (alone-in-bucket shortcut).", "15/C19"),
+    "C35": (SIM + "differential simulation: two ledgers of one bucket with independently drawn feature sets (all 48 combinations reachable) receive the same sequential history (creates with explicit back-dated / future-dated timestamps, refused writes, scripts setting account and transaction metadata, reverts, metadata saves and deletes), each from its own client, the two clients interleaved by the seeded scheduler; the real storage write path runs over the SQL interpreter, so the feature gates of CommitTransaction and InsertLog execute. Each history is followed by reads that may need a feature (volumes over a period, aggregated balances, accounts and transactions with pit and expansions, balance filters): they reach the real resource handlers, and the simulated database audits every statement they send against what the ledger's features leave empty (moves, post_commit_effective_volumes)",
+            "Seeded exploration. Write side: for every drawn pair of feature sets the transactions, logs, balances and current metadata of the two ledgers must be identical (database-assigned dates and hashes left out); hashes exist only on HASH_LOGS=SYNC ledgers and chain; moves exist only when MOVES_HISTORY=ON. Read side: no read statement touches moves / effective volumes on behalf of a ledger that does not keep them (the storage layer must have refused first), and a refusal is answered 4xx.",
+            TRUSTED + "SCOPE LIMIT: the read side decides THAT a read needing a disabled feature is refused, at statement level; it does not evaluate what the reads that are allowed return (their SQL is outside the interpreter). Per-feature triggers (metadata history, effective volumes) are absent or re-implemented, so only what the Go code gates on features is exercised.", "15/C35"),
     "C06": (SIM + "seeded schedules of 2-4 concurrent writers at store-call granularity + commit-sequence invariant on balances vs declared allowance",
             "Seeded exploration of interleavings (and store faults) of concurrent spenders through the real HTTP API; at every simulated commit the balance of each bounded source is compared with its allowance. Sampling, not proof.",
             TRUSTED + "The row locking itself (SELECT ... FOR UPDATE in balances.go) is part of the contract, not checked.", "9/C06"),
